@@ -126,7 +126,9 @@ func famIntent(o *Out, r R, tier string) {
 				if len(mo) > 0 && r.chance(2, 3) {
 					origin = r.pick(mo)
 				} else {
-					origin = r.pick([]string{"https://example.com", "https://attacker.example", "http://example.com", "https://foo.example.com", "https://fooexample.com", "https://example.com:8443", "http://localhost:3000", "https://xample.com"})
+					origin = r.pick([]string{"https://example.com", "https://attacker.example", "http://example.com", "https://foo.example.com", "https://fooexample.com", "https://example.com:8443", "http://localhost:3000", "https://xample.com",
+						// serialized tuple origins whose host is an IP literal (no pattern can list them under https, `*` covers them)
+						"https://192.168.1.10:8443", "https://[2001:db8::1]:8443", "https://127.0.0.1", "http://10.0.0.7:3000", "https://[::1]", "capacitor://localhost", "https://a.b.c.d.example.com."})
 				}
 				meths := []string{"GET", "POST", "HEAD", "PUT", "DELETE", "PATCH", "patch", "PURGE", "OPTIONS", "QUERY", "Patch"}
 				for _, x := range c.Methods {
@@ -340,6 +342,22 @@ func minimalInvalidations(a cors.Config) []cors.Config {
 			})
 		}
 	}
+	// the current origin list exactly as Config() renders it, extended by further parseable patterns, with one violation in
+	// another field (an "append only" fast path that works on the live tree would leak the appended origins)
+	if f, err := cors.NewMiddleware(cloneCfg(a)); err == nil && f != nil {
+		rendered := f.Config()
+		for _, extra := range [][]string{{"https://appended.example.com"}, {"https://zz-appended.example.org", "https://appended2.example.com:8443"}} {
+			extra := extra
+			add(func(c *cors.Config) {
+				c.Origins = append(append([]string{}, rendered.Origins...), extra...)
+				c.MaxAgeInSeconds = 86401
+			})
+			add(func(c *cors.Config) {
+				c.Origins = append(append([]string{}, rendered.Origins...), extra...)
+				c.Methods = append(append([]string{}, c.Methods...), "CONNECT")
+			})
+		}
+	}
 	// integers that wrap to something acceptable when multiplied by a unit or narrowed (time.Second = 1e9, 1e6, 1e3;
 	// 8, 16 and 32-bit narrowing)
 	for _, v := range wrapInts(600) {
@@ -420,6 +438,9 @@ func famHistWant(want string) family {
 				zz := bcfg.Origins[len(bcfg.Origins)-1]
 				probes = append(probes, reqT{method: "GET", hdrs: http.Header{"Origin": {zz}}},
 					reqT{method: "OPTIONS", hdrs: http.Header{"Origin": {zz}, "Access-Control-Request-Method": {"PUT"}}})
+			}
+			for _, og := range []string{"https://appended.example.com", "https://zz-appended.example.org", "https://appended2.example.com:8443"} {
+				probes = append(probes, reqT{method: "GET", hdrs: http.Header{"Origin": {og}}}) // the origins that only rejected configurations list
 			}
 			probeSX := make(SL, len(probes))
 			for i, q := range probes {
@@ -616,6 +637,34 @@ func famRoundtrip(o *Out, r R, tier string) {
 		cors.Config{Origins: []string{"https://example.com"}, RequestHeaders: []string{"X_Request_Id", "x-Trace^Span", "X-`Q~|"}, ResponseHeaders: []string{"X_Trace_Id", "x!#$%&'+.^"}, Methods: []string{"Pu_T", "q^Z"}})
 	for _, e := range extremeTrees(tier) { // maximal fan-out and maximal depth must survive the round trip too
 		special = append(special, cors.Config{Origins: e.pats})
+	}
+	// dense lists over a small universe (several schemes and port forms per host, wildcards over inner nodes), in the order
+	// written and in the order Config() will produce: the tree the round trip rebuilds is built in ANOTHER insertion order
+	{
+		labels := []string{"a", "b", "ab"}
+		var uni []string
+		for _, l1 := range labels {
+			uni = append(uni, l1+".example.com")
+			for _, l2 := range labels {
+				uni = append(uni, l2+"."+l1+".example.com")
+			}
+		}
+		uni = append(uni, "example.com")
+		nd := 12
+		if tier == "thorough" {
+			nd = 200
+		}
+		for i := 0; i < nd; i++ {
+			var pats []string
+			for j := 3 + r.Intn(10); j > 0; j-- {
+				h := r.pick(uni)
+				if r.chance(1, 3) {
+					h = "*." + h
+				}
+				pats = append(pats, r.pick([]string{"https", "http", "https"})+"://"+h+r.pick([]string{"", ":81", ":*", ":*"}))
+			}
+			special = append(special, cors.Config{Origins: pats, ExtraConfig: cors.ExtraConfig{DangerouslyTolerateInsecureOrigins: true}})
+		}
 	}
 	for k := 0; k < 12; k++ {
 		c := cors.Config{Origins: []string{"http://" + genIPv6(r) + genPort(r, "http"), "http://" + genIPv6(r), genInsecureOrigin(r)}}
@@ -831,6 +880,31 @@ func famPattern(o *Out, r R, tier string) {
 	}
 	// every maximum at once (F3)
 	maxScheme := "a" + strings.Repeat("b", 63)
+	// a dictionary of scheme names that exist (everything but `file` is permitted)
+	for _, sc := range []string{"data", "blob", "about", "javascript", "ws", "wss", "ftp", "chrome-extension", "moz-extension", "safari-web-extension", "capacitor", "ionic", "tauri", "app", "vscode-webview",
+		"resource", "filesystem", "view-source", "mailto", "tel", "urn", "content", "android-app", "ms-appx-web", "gopher", "irc", "git", "ssh", "s3", "intent", "files", "filex", "fil"} {
+		emit("valid", "real-scheme", sc+"://example.com")
+		emit("valid", "real-scheme", sc+"://*.example.com:8080")
+	}
+	emit("defect", "file-scheme", "file://example.com")
+	// numbers of labels at the DNS limit: one-byte labels, with and without the root dot, with and without the wildcard
+	for _, nl := range []int{125, 126, 127} {
+		h := strings.TrimSuffix(strings.Repeat("a.", nl), ".")
+		emit("valid", "label-count", "https://"+h)
+		emit("valid", "label-count", "https://"+h+".")
+		if nl <= 126 {
+			emit("valid", "label-count", "https://*."+strings.TrimSuffix(strings.Repeat("a.", nl-1), "."))
+		}
+	}
+	// every prefix of a maximal valid pattern (each is valid or has exactly the defect the grammar names; none may crash)
+	{
+		full := maxScheme + "://" + longHost(253, 'a') + ".:65535"
+		for k := 0; k <= len(full); k++ {
+			if k < 80 || k > len(full)-12 || k%9 == 0 {
+				emit("prefix", "of-maximal", full[:k])
+			}
+		}
+	}
 	emit("valid", "all-maxima", maxScheme+"://"+longHost(253, 'a')+".:65535")
 	emit("valid", "all-maxima", maxScheme+"://"+longHost(253, 'a')+":65535")
 	emit("valid", "all-maxima", maxScheme+"://*."+longHost(251, 'a')+":*")
